@@ -172,6 +172,7 @@ func SetSymmetricDifference(sets ...cty.Value) (cty.Value, error) {
 
 func setOperationReturnType(args []cty.Value) (ret cty.Type, err error) {
 	var etys []cty.Type
+	pendingElemType := false
 	for _, arg := range args {
 		if arg.Type() == cty.DynamicPseudoType {
 			// We can't predict the result type until we know the types
@@ -185,8 +186,18 @@ func setOperationReturnType(args []cty.Value) (ret cty.Type, err error) {
 		if arg.IsKnown() && arg.LengthInt() == 0 && ty.Equals(cty.DynamicPseudoType) {
 			continue
 		}
+		if ty.Equals(cty.DynamicPseudoType) {
+			// Any other set of dynamically-typed elements might turn out to
+			// be empty (and so be skipped above) or to have elements of any
+			// type, so we can't predict the unified element type yet.
+			pendingElemType = true
+			continue
+		}
 
 		etys = append(etys, ty)
+	}
+	if pendingElemType {
+		return cty.Set(cty.DynamicPseudoType), nil
 	}
 
 	// If all element types were skipped (due to being empty dynamic collections),
